@@ -144,7 +144,14 @@ def case(spec, log):
         census = {str(pid): {'what': what, 'running': pid_running(pid)} for pid, what in pids.items()}
         alive = [(tag, type(w).__name__, w.userid) for tag, w in all_workers if w.is_alive() and not w.is_thread]
         stuck_threads = [(tag, w.userid) for tag, w in all_workers if w.is_thread and w.is_alive()]
-        leftovers = [c for c in descendants(os.getpid()) if server is None or c != server.pid]
+        def cmdline(pid):
+            try:
+                with open('/proc/%d/cmdline' % pid, 'rb') as f:
+                    return f.read().replace(b'\0', b' ').decode('utf-8', 'replace')
+            except OSError:
+                return ''
+        # multiprocessing's own resource tracker helpers are not workers
+        leftovers = [c for c in descendants(os.getpid()) if (server is None or c != server.pid) and 'resource_tracker' not in cmdline(c)]
         log.ev('census', pids=census, alive_process_or_remote=alive, alive_threads=stuck_threads, leftover_descendants=leftovers)
         log.ev('handouts', handouts=handouts)
         return {'ok': True}
